@@ -185,7 +185,12 @@ def same(observed, reference):
 
 # ----------------------------------------------------------------------------- execution
 def execute(case, result):
-    from cobald.decorator.standardiser import Standardiser
+    # the decorator under each of the names it is published under (configurations and documentation use all three)
+    import importlib
+
+    name = ["Standardiser", "Limiter", "Coarser", "Standardiser"][len(repr(case["params"])) % 4]
+    Standardiser = getattr(importlib.import_module("cobald.decorator." + name.lower()), name)
+    result.count("cases_built_as_%s" % name)
 
     params = {k: unnum(v) for k, v in case["params"].items()}
     pool = RecPool(demand=case["init"]["demand"], supply=case["init"]["supply"])
@@ -408,6 +413,6 @@ def run_shard(spec):
 
 
 def finish(total, tier):
-    for needed in ("writes_limited", "writes_unlimited", "writes_floored", "increment_runs_checked", "ctor_rejected", "ctor_accepted", "fractional_granularity_writes"):
+    for needed in ("writes_limited", "cases_built_as_Limiter", "cases_built_as_Coarser", "writes_unlimited", "writes_floored", "increment_runs_checked", "ctor_rejected", "ctor_accepted", "fractional_granularity_writes"):
         if not total.counters.get(needed) and not total.violations:
             total.inconc("monitor never observed: " + needed)
